@@ -24,18 +24,20 @@ pub mod refenc;
 pub mod edrv;
 
 #[cfg(verif_selftest)] pub mod selftest;
+#[cfg(verif_c18)] pub mod c18;
 #[cfg(verif_c19)] pub mod c19;
 #[cfg(verif_c20)] pub mod c20;
 
-#[cfg(any(verif_c01, verif_c02, verif_c07, verif_c08, verif_c09, verif_c19))] pub mod c01;
+#[cfg(any(verif_c01, verif_c02, verif_c07, verif_c08, verif_c09, verif_c18, verif_c19, verif_c20))] pub mod c01;
 #[cfg(verif_c02)] pub mod c02;
-#[cfg(any(verif_c03, verif_c04, verif_c07, verif_c08, verif_c09, verif_c12, verif_c20))] pub mod c03;
+#[cfg(any(verif_c03, verif_c04, verif_c07, verif_c08, verif_c09, verif_c12, verif_c18, verif_c20))] pub mod c03;
 #[cfg(verif_c04)] pub mod c04;
 #[cfg(verif_c12)] pub mod c12;
 #[cfg(verif_c07)] pub mod c07;
 #[cfg(verif_c08)] pub mod c08;
 #[cfg(verif_c09)] pub mod c09;
 #[cfg(verif_c10)] pub mod c10;
+#[cfg(verif_c11)] pub mod c11;
 #[cfg(verif_c13)] pub mod c13;
 #[cfg(verif_c14)] pub mod c14;
 #[cfg(verif_c15)] pub mod c15;
